@@ -473,7 +473,9 @@ def run(pid: str) -> int:
         from . import p_proof  # noqa: PLC0415
 
         p_proof.run_for(chk)      # unbounded list length: TLAPS proof of the bisection loop + TLC refinement Search.tla => BisectProof.tla
-    total, drift, viol = generate_and_replay(chk, invs)
+    # judged on the code's own run only (no counterpart in the bounded model: Search.tla does not model rotations)
+    mirror_only = {"C01": ["SameGeneratorArguments"], "C14": ["SameGeneratorArguments"]}
+    total, drift, viol = generate_and_replay(chk, invs + mirror_only.get(pid, []))
     for v in viol[:10]:
         chk.violation(f"{pid}: real code violates {v['false_invariants'] or v['mismatch'][:1]} on TLC behaviour (mode {v['mode']}, cfg {v['cfg']})", v)
     b2_real_runs(chk, pid)
